@@ -10,7 +10,13 @@ from sigma.rule import SigmaRule
 
 
 def _cond(c):
-    return [] if c is None else [{"type": "processing_state", "key": c[0], "val": c[1]}]
+    if c is None:
+        return []
+    if c[0] == "state":
+        return [{"type": "processing_state", "key": c[1], "val": c[2]}]
+    if c[0] == "applied":
+        return [{"type": "processing_item_applied", "processing_item_id": c[1]}]
+    raise ValueError(c)
 
 
 def _item(i):
